@@ -3,6 +3,7 @@ import LeptosModel.Proofs.KeyedSummary
 import LeptosModel.Proofs.KeyedFinal
 import LeptosModel.Proofs.KeyedBuild
 import LeptosModel.Proofs.KeyedExact
+import LeptosModel.Proofs.KeyedRepair
 /-!
 # C11 — keyed lists keep item identity and end in the new order
 
@@ -16,16 +17,20 @@ sequence `s.hashed` is any duplicate-free sequence) — `rebuild` preserves `Wf`
 The DOM theorems additionally take `Mounted pre post s` for ARBITRARY sibling lists `pre`, `post` and
 arbitrary block sizes (every item owns ≥ 1 node).  Lemmas: `Proofs/Keyed*.lean` (core Lean only).
 
+`diff` / `group_adjacent_moves` are modelled AFTER the repair of finding F-C11-1 (`fix:` commit in /repo,
+/verif/hooks/fix-c11-1.patch); the functions before the repair are `diffOld` / `rebuildOld`, and the
+theorems about them stay as regression theorems.
+
 | theorem | status |
 |---|---|
 | `C11_build_wf` | full (`build` + `mount` establish `Wf` and `Mounted`) |
 | `C11_unpack_complete`, `C11_unpack_complete_diff`, `C11_group_complete` | full |
 | `C11_storage_is_to`, `C11_identity`, `C11_identity_nodes_leave`, `C11_set_index` | full |
-| `C11_dom_order_full` | refuted: `C11_dom_order_witness` (`[0,1,2] → [4,3,2,1,0]`, F-C11-1) |
-| `C11_dom_order_partial` | under `settledMonotone s.hashed to` (decidable; negation = known-finding class) |
-| `C11_dom_order_iff` | full: the order is right IFF `settledMonotone` (the hypothesis is exact) |
-| `C11_history` | full (storage / identity / set_index at every step of every history) |
-| `C11_history_dom_order_partial` | under `settledHistory` (= `settledMonotone` at every step) |
+| `C11_settled_monotone` | full: the repaired `diff` never lets a resting item overtake another one |
+| `C11_dom_order` | **full** (no hypothesis beyond the state invariants) — since the repair |
+| `C11_history`, `C11_history_dom_order` | full, every step of every history |
+| `C11_dom_order_old_witness` | regression: the code before the repair: `[0,1,2] → [4,3,2,1,0]` ends as 1,4,3,2,0 |
+| `C11_dom_order_old_iff` | regression: before the repair the order was right IFF `settledMonotone diffOld` |
 -/
 namespace Leptos.Keyed
 
@@ -60,7 +65,7 @@ example : ∃ d : Diff, (∀ m ∈ d.moved, 1 ≤ m.len) ∧ d.itemsToMove = sum
 /-- `Keyed::build` followed by `KeyedState::mount(parent, None)` yields a state that satisfies every
 hypothesis used below: for any duplicate-free keys, any block size ≥ 1, any (duplicate-free) children
 already in the parent — they become the `pre` siblings. (`post` siblings are whatever is appended to
-the parent afterwards; `rebuild` preserves `Wf` always and `Mounted` under `settledMonotone`.) -/
+the parent afterwards; `rebuild` preserves `Wf` and `Mounted`.) -/
 theorem C11_build_wf (bs : Nat) (keys : List Key) (kids : List NodeId) (next : Nat) (hbs : 0 < bs)
     (hk : keys.Nodup) (hkids : kids.Nodup) (hfr : ∀ n ∈ kids, n < next) :
     Wf ((build bs keys kids next).mount none) ∧ Mounted kids [] ((build bs keys kids next).mount none) :=
@@ -68,10 +73,17 @@ theorem C11_build_wf (bs : Nat) (keys : List Key) (kids : List NodeId) (next : N
 
 /-! ## storage, identity, set_index -/
 
+/-- the summary holds for `rebuild` with any diff function that hands `apply_diff` the right command
+lists (`DiffLike`): the repaired `diff` and the old one -/
+theorem rebuildWith_summary (D : List Key → List Key → Diff) (hD : DiffLike D) (s : KState) (to : List Key)
+    (hs : Wf s) (hto : to.Nodup) :
+    Summary s.hashed to (somes s.w.storage) (rebuildWith D s to).w :=
+  applyDiff_summary D hD s.hashed to (somes s.w.storage) hs.nodup hto hs.keys s.bs s.marker
+    { s.w with log := {} } hs.all_some rfl
+
 theorem rebuild_summary (s : KState) (to : List Key) (hs : Wf s) (hto : to.Nodup) :
     Summary s.hashed to (somes s.w.storage) (rebuild s to).w :=
-  applyDiff_summary s.hashed to (somes s.w.storage) hs.nodup hto hs.keys s.bs s.marker
-    { s.w with log := {} } hs.all_some rfl
+  rebuildWith_summary diff diffLike_diff s to hs hto
 
 /-- **storage is `to`**: after `rebuild`, `rendered_items` has exactly `to.length` entries, none of
 them a hole, and entry `j` is the item keyed `to[j]`; no `unwrap`/index panic happened; the new state
@@ -142,75 +154,42 @@ that is mounted in order; the order AFTER the update does not matter here). -/
 theorem C11_identity_nodes_leave (s : KState) (to : List Key) (pre post : List NodeId) (hs : Wf s)
     (hm : Mounted pre post s) (hto : to.Nodup) :
     ∀ r ∈ somes s.w.storage, r.key ∉ to → ∀ n ∈ r.nodes, n ∉ (rebuild s to).w.kids :=
-  rebuild_removed_nodes_leave s to pre post hs hm hto
+  rebuild_removed_nodes_leave diff diffLike_diff s to pre post hs hm hto
 
 /-! ## DOM order -/
 
-/-- the full statement: wherever the list sits (`pre`, `post` arbitrary), after `rebuild` the parent's
-children are `pre`, the blocks of the items keyed `to` in that order, the marker, `post`.
-**False of the code as it is** (`C11_dom_order_witness`, finding F-C11-1). -/
-def C11_dom_order_full : Prop :=
-  ∀ (s : KState) (to : List Key) (pre post : List NodeId), Wf s → Mounted pre post s → to.Nodup →
-    (rebuild s to).w.kids
-      = pre ++ blocksOf (rebuild s to).w.storage ++ (rebuild s to).marker :: post
+/-- **the repaired `diff` keeps the resting items in order**: for all duplicate-free sequences, the
+items that are neither removed nor re-inserted in the DOM (at the same index in both sequences, or
+moved with `move_in_dom = false`) appear in the same relative order in `from` and in `to`. This is the
+property whose failure was finding F-C11-1; after the repair it holds by construction (`last_kept`,
+`next_unmoved` in `diff`; `group_adjacent_moves` keeps the flags). -/
+theorem C11_settled_monotone (frm to : List Key) (hf : frm.Nodup) (ht : to.Nodup) :
+    settledMonotone diff frm to = true :=
+  settledMonotone_diff frm to hf ht
 
-/-- the witness state: `keyed([0,1,2])`, one node per item, built and mounted into an empty parent -/
-def witnessState : KState := (build 1 [0, 1, 2] [] 0).mount none
-
-theorem witnessState_wf : Wf witnessState := ⟨by decide, by decide, by decide⟩
-
-theorem witnessState_mounted : Mounted [] [] witnessState :=
-  ⟨by decide, by decide, by decide, by decide, by decide⟩
-
-/-- `[0,1,2] → [4,3,2,1,0]`: the storage is `4,3,2,1,0` but the children of the parent end as the
-nodes of `1,4,3,2,0` (item 1, index 1 → 3, is not moved in the DOM because two items were added
-before it — but it has overtaken item 2, which rests). Kernel-checked by evaluation of the model;
-replayed on the real `keyed()` / `<ForEnumerate>` by corpus/C11/01-f-c11-1-witness.ops. -/
-theorem C11_dom_order_witness : ¬ C11_dom_order_full := by
-  intro h
-  have := h witnessState [4, 3, 2, 1, 0] [] [] witnessState_wf witnessState_mounted (by decide)
-  revert this
-  decide
-
-/-- the witness is exactly outside the hypothesis of the partial theorem -/
-example : settledMonotone witnessState.hashed [4, 3, 2, 1, 0] = false := by decide
-
-/-- **DOM order, partial**: under the decidable hypothesis `settledMonotone from to` — on the items
-that are neither removed nor re-inserted in the DOM (in place, or moved in storage only because
-`diff` set `move_in_dom = false`), the old order and the new order agree — the parent's children
-after `rebuild` are `pre ++ blocks of to in order ++ marker :: post`, for any siblings `pre`, `post`
-and any block sizes; and the list is again `Mounted` (all invariants), so the theorem chains.
-The negation of the hypothesis is the known-finding class `dom-order-move-elided`. -/
-theorem C11_dom_order_partial (s : KState) (to : List Key) (pre post : List NodeId) (hs : Wf s)
-    (hm : Mounted pre post s) (hto : to.Nodup) (hsm : settledMonotone s.hashed to = true) :
+/-- **DOM order (full)**: wherever the list sits (`pre`, `post` arbitrary) and whatever the block sizes,
+after `rebuild` the parent's children are `pre`, the blocks of the items keyed `to` in that order, the
+marker, `post` — for ALL duplicate-free `to` — and the list is again `Mounted`. -/
+theorem C11_dom_order (s : KState) (to : List Key) (pre post : List NodeId) (hs : Wf s)
+    (hm : Mounted pre post s) (hto : to.Nodup) :
     (rebuild s to).w.kids
       = pre ++ blocksOf (rebuild s to).w.storage ++ (rebuild s to).marker :: post ∧
     Mounted pre post (rebuild s to) :=
-  ⟨(rebuild_mounted s to pre post hs hm hto hsm).ordered, rebuild_mounted s to pre post hs hm hto hsm⟩
-
-/-- **the hypothesis is exact**: for a list mounted in order, the children end in the new order IF AND
-ONLY IF `settledMonotone` holds — so `C11_dom_order_partial` is the strongest partial statement there
-is, and the known-finding class `dom-order-move-elided` (its negation) contains exactly the
-transitions the code gets wrong, no others. (The items that are neither removed nor re-inserted never
-change their relative order among the children.) -/
-theorem C11_dom_order_iff (s : KState) (to : List Key) (pre post : List NodeId) (hs : Wf s)
-    (hm : Mounted pre post s) (hto : to.Nodup) :
-    (rebuild s to).w.kids
-        = pre ++ blocksOf (rebuild s to).w.storage ++ (rebuild s to).marker :: post
-      ↔ settledMonotone s.hashed to = true :=
-  rebuild_ordered_iff s to pre post hs hm hto
+  have h := rebuild_mounted diff diffLike_diff s to pre post hs hm hto
+    (settledMonotone_diff s.hashed to hs.nodup hto)
+  ⟨h.ordered, h⟩
 
 /-- non-vacuity: a mounted list with siblings on both sides and two-node items; an update that moves,
-adds and removes and satisfies the hypothesis -/
+adds and removes -/
 example : ∃ (s : KState) (to : List Key) (pre post : List NodeId),
-    Wf s ∧ Mounted pre post s ∧ to.Nodup ∧ settledMonotone s.hashed to = true ∧
-    to ≠ s.hashed ∧ pre ≠ [] ∧ post ≠ [] ∧ (domMovedKeys s.hashed to) ≠ [] :=
+    Wf s ∧ Mounted pre post s ∧ to.Nodup ∧
+    to ≠ s.hashed ∧ pre ≠ [] ∧ post ≠ [] ∧ (domMovedKeys diff s.hashed to) ≠ [] :=
   ⟨{ (build 2 [0, 1, 2, 3] [100] 101).mount none with
       w := { ((build 2 [0, 1, 2, 3] [100] 101).mount none).w with
         kids := ((build 2 [0, 1, 2, 3] [100] 101).mount none).w.kids ++ [200], next := 201 } },
     [3, 0, 5, 2], [100], [200],
     ⟨by decide, by decide, by decide⟩, ⟨by decide, by decide, by decide, by decide, by decide⟩,
-    by decide, by decide, by decide, by decide, by decide, by decide⟩
+    by decide, by decide, by decide, by decide, by decide⟩
 
 /-! ## histories -/
 
@@ -218,11 +197,6 @@ example : ∃ (s : KState) (to : List Key) (pre post : List NodeId),
 def rebuilds (s : KState) : List (List Key) → KState
   | [] => s
   | t :: ts => rebuilds (rebuild s t) ts
-
-/-- every step of the history satisfies `settledMonotone` (from = the previous key sequence) -/
-def settledHistory (frm : List Key) : List (List Key) → Bool
-  | [] => true
-  | t :: ts => settledMonotone frm t && settledHistory t ts
 
 /-- **histories, storage / identity / set_index**: after any list of duplicate-free updates the state is
 `Wf` and holds the last key sequence — hence `C11_storage_is_to`, `C11_identity` and `C11_set_index`
@@ -250,13 +224,10 @@ theorem C11_history (s : KState) (tos : List (List Key)) (hs : Wf s) (hto : ∀ 
       rw [List.getLast?_cons_cons]
       exact this.2.1
 
-/-- **histories, DOM order (partial)**: if every step of the history satisfies `settledMonotone`, the
-list is mounted in order (`pre ++ blocks ++ marker :: post`) after every step. A history leaves the
-scope of this theorem — and enters the known-finding class — at its first step that violates the
-hypothesis (`C11_dom_order_witness` is such a step). -/
-theorem C11_history_dom_order_partial (s : KState) (tos : List (List Key)) (pre post : List NodeId)
-    (hs : Wf s) (hm : Mounted pre post s) (hto : ∀ t ∈ tos, t.Nodup)
-    (hsm : settledHistory s.hashed tos = true) :
+/-- **histories, DOM order (full)**: after every step of every history of duplicate-free updates the
+list is mounted in order (`pre ++ blocks ++ marker :: post`). -/
+theorem C11_history_dom_order (s : KState) (tos : List (List Key)) (pre post : List NodeId)
+    (hs : Wf s) (hm : Mounted pre post s) (hto : ∀ t ∈ tos, t.Nodup) :
     ∀ (ts₁ ts₂ : List (List Key)), tos = ts₁ ++ ts₂ →
       Wf (rebuilds s ts₁) ∧ Mounted pre post (rebuilds s ts₁) := by
   induction tos generalizing s with
@@ -275,13 +246,55 @@ theorem C11_history_dom_order_partial (s : KState) (tos : List (List Key)) (pre 
     | cons t1 ts₁ =>
       simp only [List.cons_append, List.cons.injEq] at h
       obtain ⟨rfl, rfl⟩ := h
-      simp only [settledHistory, Bool.and_eq_true] at hsm
       have ht0 := hto t0 (by simp)
       have hwf := (C11_storage_is_to s t0 hs ht0).2.2.2.2
-      have hmo := rebuild_mounted s t0 pre post hs hm ht0 hsm.1
-      exact ih (rebuild s t0) hwf hmo (fun t' ht' => hto t' (by simp [ht'])) hsm.2 ts₁ ts₂ rfl
+      have hmo := (C11_dom_order s t0 pre post hs hm ht0).2
+      exact ih (rebuild s t0) hwf hmo (fun t' ht' => hto t' (by simp [ht'])) ts₁ ts₂ rfl
 
-/-- non-vacuity of the history hypothesis: three successive updates, each moving items -/
-example : settledHistory [0, 1, 2, 3] [[3, 0, 1, 2], [1, 2], [5, 1, 6, 2], []] = true := by decide
+/-! ## regression: the code before the repair (finding F-C11-1) -/
+
+/-- the full DOM-order statement for the OLD `diff`: false (`C11_dom_order_old_witness`) -/
+def C11_dom_order_old_full : Prop :=
+  ∀ (s : KState) (to : List Key) (pre post : List NodeId), Wf s → Mounted pre post s → to.Nodup →
+    (rebuildOld s to).w.kids
+      = pre ++ blocksOf (rebuildOld s to).w.storage ++ (rebuildOld s to).marker :: post
+
+/-- the witness state: `keyed([0,1,2])`, one node per item, built and mounted into an empty parent -/
+def witnessState : KState := (build 1 [0, 1, 2] [] 0).mount none
+
+theorem witnessState_wf : Wf witnessState := ⟨by decide, by decide, by decide⟩
+
+theorem witnessState_mounted : Mounted [] [] witnessState :=
+  ⟨by decide, by decide, by decide, by decide, by decide⟩
+
+/-- before the repair, `[0,1,2] → [4,3,2,1,0]` left the storage as `4,3,2,1,0` but the children of the
+parent as the nodes of `1,4,3,2,0` (item 1, index 1 → 3, was not moved in the DOM because two items
+were added before it — but it had overtaken item 2, which rests). Kernel-checked by evaluation of the
+old model; reproduced on the real `keyed()` / `<ForEnumerate>` before the `fix:` commit
+(corpus/C11/01-f-c11-1-witness.ops, now a regression case). -/
+theorem C11_dom_order_old_witness : ¬ C11_dom_order_old_full := by
+  intro h
+  have := h witnessState [4, 3, 2, 1, 0] [] [] witnessState_wf witnessState_mounted (by decide)
+  revert this
+  decide
+
+/-- the same transition with the repaired `diff` ends in the right order (by evaluation; by
+`C11_dom_order` in general) -/
+example : (rebuild witnessState [4, 3, 2, 1, 0]).w.kids
+    = blocksOf (rebuild witnessState [4, 3, 2, 1, 0]).w.storage ++ [(rebuild witnessState [4, 3, 2, 1, 0]).marker] := by
+  decide
+
+example : settledMonotone diffOld witnessState.hashed [4, 3, 2, 1, 0] = false := by decide
+example : settledMonotone diff witnessState.hashed [4, 3, 2, 1, 0] = true := by decide
+
+/-- before the repair the children ended in the new order IF AND ONLY IF `settledMonotone diffOld`
+held: the failure class of F-C11-1 is characterised exactly (2160 of the 1 530 169 transitions of
+length ≤ 5 over 6 keys). -/
+theorem C11_dom_order_old_iff (s : KState) (to : List Key) (pre post : List NodeId) (hs : Wf s)
+    (hm : Mounted pre post s) (hto : to.Nodup) :
+    (rebuildOld s to).w.kids
+        = pre ++ blocksOf (rebuildOld s to).w.storage ++ (rebuildOld s to).marker :: post
+      ↔ settledMonotone diffOld s.hashed to = true :=
+  rebuild_ordered_iff diffOld diffLike_diffOld s to pre post hs hm hto
 
 end Leptos.Keyed
